@@ -834,6 +834,8 @@ def plan_c01(tier, seed):
         # two tasks in flight whose inputs have the same base name in different directories (their unfinished
         # files must not meet in one temp directory)
         jobs.append(with_delay_fallback(wf("C01", "g2", 2, 1, 2, "cmd", oracles=o + ["clean", "c04"], tier=tier, events_dep=False, crash=True, disk_dep=False, extra="samename", id="C01-crash-g2-i2-m2-same-base-names"), 1 if tier == "quick" else 2))
+        # two processes whose names the sanitizer folds to the same text, same input, both in flight
+        jobs.append(with_delay_fallback(wf("C01", "g4s", 1, 1, 2, "cmd", oracles=o + ["clean", "c04"], tier=tier, events_dep=False, crash=True, disk_dep=False, id="C01-crash-g4s-sanitize-equal-process-names")))
         # a file-writing component: every part FileSplitter finalizes is complete at every instant
         jobs.append(with_delay_fallback(wf("C01", "gsplit1", 1, 1, 1, "func", oracles=o + ["clean"], tier=tier, events_dep=False, crash=True, disk_dep=True, id="C01-crash-filesplitter-3lines")))
         if tier != "quick":
